@@ -78,6 +78,9 @@ func main() {
 
 		<-sigchan
 
+		// Closing the network layer ends every client session. Flag the shutdown first so
+		// that those session ends don't clear the clients' locks from the state file.
+		lockSrv.SetShuttingDown()
 		netCloser()
 		lockSrvCloser()
 	}
